@@ -40,7 +40,8 @@ EXPLANATION = (
     "PyOpenSSL path the wrapper delegates peername and carries the certificate set before the "
     "inner connection_made. (M4) Both create_server factories build the protocol with "
     "identical arguments. (M5) The rejection written is the component's text. Handler side "
-    "effects before a first await and task scheduling order are not decided."
+    "effects before a first await and task scheduling order are not decided. "
+    "(M3, cut) Where a request class assembles its ParsedURL by hand, the URL the chain is consulted with and the path the handler acts on are the same canonical cut of the request line."
 )
 
 
